@@ -20,6 +20,7 @@ FIELDS = {
         "_listening": "bool", "_did_claim": "bool", "_nameplate_id": "str?",
         "_did_release": "bool", "_did_open": "bool", "_mailbox": ("ref?", "Mailbox"),
         "_mailbox_id": "str?", "_did_close": "bool",
+        "alive": "bool",     # ghost (A10): onOpen has run and onClose has not
     },
     "Mailbox": {
         "_app": ("ref", "AppNamespace"), "_app_id": "str", "_mailbox_id": "str",
